@@ -639,6 +639,19 @@ PROPS["C01"]["explanation"] += (" C01_system_wire_order (Model/Sys.v): for every
     "server, what the server has read of a channel followed by what is still on its way is exactly what that "
     "channel issued, in order; c04sys compares the real program with it.")
 PROPS["C01"]["trusted_base"] = PROPS["C01"]["trusted_base"] + L2_TRUSTED
+# a synchronous wrapper that calls its nowait twin does not block (seed C04e): every public call, under C04 too
+PROPS["C04"]["check_mods"].append("C12")
+PROPS["C04"]["drivers"].append({"name": "c12", "n_quick": 400, "n_thorough": 6000, "timeout": 3000})
+PROPS["C04"]["rule"] += (" Every public call (c12, see C12): the synchronous operations put the method with nowait = false "
+    "on the wire and return after its reply; the nowait variants set the bit and return at once.")
+PROPS["C04"]["explanation"] += (" c12: what each call emitted, read from the bytes inside Coq, is the documented method - "
+    "in particular the nowait bit is set exactly in the nowait variants, so a synchronous call cannot return without a "
+    "reply being owed to it.")
+# a consumer that does not keep up delays nobody else (seed C11e): the backlog scenario of c11l2 under C03 too
+PROPS["C03"]["check_mods"].append("C11l2")
+PROPS["C03"]["drivers"].append({"name": "c11l2", "n_quick": 6, "n_thorough": 100, "timeout": 3000})
+PROPS["C03"]["rule"] += (" A consumer that never drains its queue (c11l2, see C11; the first scenario always): 65536+ unread "
+    "deliveries for one consumer while the others, the channels and the connection go on.")
 # a silent server while the connection is closing (seed C05d): the heartbeat scenarios of the c05 generator
 PROPS["C17"]["check_mods"].append("C05")
 PROPS["C17"]["drivers"].append({"name": "c05core", "n_quick": 160, "n_thorough": 2000, "timeout": 3000})
